@@ -725,10 +725,11 @@ class C12(flatcheck.FlatCheck):
                 'TM.C12_nested_trigger_spec', 'TM.C12_nested_pure', 'TM.C12_nested_baddest', 'TM.C12_nested_baddest_all',
                 'TM.C12_nested_raised_without_handlers', 'TM.C12_nested_routed_with_handlers',
                 'TM.C12_nested_raise_reaches_caller', 'TM.C12_nested_wf_init', 'TM.C12_nested_wf_trigger',
-                'TM.C12_nested_wf_may', 'TM.C12_nested_wf_history', 'TM.C12_nested_destsOK')
+                'TM.C12_nested_wf_may', 'TM.C12_nested_wf_history', 'TM.C12_nested_destsOK',
+                'TM.C12_nested_global_dest_counterexample')
     manifest = dict(
         level='proof', design='DESIGN.md 4/C12',
-        text="Lean 4 theorems on the flat engine model: with deterministic non-raising conditions may_<event> returns True exactly when the trigger issued right away executes a transition (C12_flat: both walk the same candidate list and agree on the first candidate whose conditions pass); for EVERY script without re-entrant commands a may_ evaluation leaves the model list, every model's state, the queue and the tag counter untouched and runs only prepare_event/prepare/conditions/unless (and on_exception) callbacks on behalf of that model with the call's arguments (C12_pure); candidates with unregistered destinations are skipped without running anything; exceptions are raised without handlers and routed to them otherwise. On the HIERARCHICAL engine model (Model/NestedMay.lean after HierarchicalMachine._can_trigger/_can_trigger_nested, against the dispatch model of C02/C03): for every configuration of states/transitions (compound, parallel, local and machine-level declarations, any handlers/ignore flags/queue), every admissible active configuration (C02's invariant, proved for every reachable configuration of mixed trigger/may_ histories), every deterministic non-raising script and every event whose destinations resolve, may_ returns a Boolean that is True EXACTLY WHEN _trigger_event issued in the same state gets some transition past its conditions (C12_nested; C12_nested_sound without the destination hypothesis); the evaluation and the dispatch visit the same SET of (scope, source) pairs in different orders (C12_nested_pairs) and none of the dispatch's skipping rules (done, exited_states, offered, res[key]) withholds a pair before something executed (ten_spec); the trigger never runs out of fuel; purity for ANY script (C12_nested_pure: configuration, queue, event bookkeeping, ghost log untouched; only evaluation slots); unresolvable destinations are skipped as if absent (C12_nested_baddest); routing theorems. Tied to /repo by trace equality on mixed may_/trigger histories (flat: Machine; nested: HierarchicalMachine and, for single-callback stages, HierarchicalAsyncMachine, incl. re-entrant calls from callbacks, raising callbacks, handlers, unresolvable destinations), and decided on the locked and async classes by a twin oracle: at every prefix of every generated history, for every model and event name, may_ on one run is compared with the real trigger on an identically prepared twin (flat and nested/parallel configurations), plus purity and routing oracles.",
+        text="Lean 4 theorems on the flat engine model: with deterministic non-raising conditions may_<event> returns True exactly when the trigger issued right away executes a transition (C12_flat: both walk the same candidate list and agree on the first candidate whose conditions pass); for EVERY script without re-entrant commands a may_ evaluation leaves the model list, every model's state, the queue and the tag counter untouched and runs only prepare_event/prepare/conditions/unless (and on_exception) callbacks on behalf of that model with the call's arguments (C12_pure); candidates with unregistered destinations are skipped without running anything; exceptions are raised without handlers and routed to them otherwise. On the HIERARCHICAL engine model (Model/NestedMay.lean after HierarchicalMachine._can_trigger/_can_trigger_nested, against the dispatch model of C02/C03): for every configuration of states/transitions (compound, parallel, local and machine-level declarations, any handlers/ignore flags/queue), every admissible active configuration (C02's invariant, proved for every reachable configuration of mixed trigger/may_ histories), every deterministic non-raising script and every event whose destinations resolve, may_ returns a Boolean that is True EXACTLY WHEN _trigger_event issued in the same state gets some transition past its conditions (C12_nested; C12_nested_sound without the destination hypothesis); the evaluation and the dispatch visit the same SET of (scope, source) pairs in different orders (C12_nested_pairs) and none of the dispatch's skipping rules (done, exited_states, offered, res[key]) withholds a pair before something executed (ten_spec); the trigger never runs out of fuel; purity for ANY script (C12_nested_pure: configuration, queue, event bookkeeping, ghost log untouched; only evaluation slots); unresolvable destinations are skipped as if absent (C12_nested_baddest); routing theorems. 'Executes' in C12_nested means that the transition stage is entered: for a locally declared transition whose destination only resolves as a GLOBAL name the trigger then raises from _resolve_transition (witness C12_nested_global_dest_counterexample, decided in the kernel; stream nested-twin-globaldest ties the model to the code on such inputs and reports the listed finding F-C12-local-global-dest). Tied to /repo by trace equality on mixed may_/trigger histories (flat: Machine; nested: HierarchicalMachine and, for single-callback stages, HierarchicalAsyncMachine, incl. re-entrant calls from callbacks, raising callbacks, handlers, unresolvable destinations), and decided on the locked and async classes by a twin oracle: at every prefix of every generated history, for every model and event name, may_ on one run is compared with the real trigger on an identically prepared twin (flat and nested/parallel configurations), plus purity and routing oracles.",
         note="Trusted: Lean kernel, Model/Core.lean (canTrigger/mayLoop) and Model/NestedMay.lean + Model/NestedDispatch.lean tied by trace equality, harness twins. The async copies of _can_trigger have no model of their own: they differ from the sync code only inside a callback stage (gather; C07) and are compared with the sync model on single-callback stages and by the twin oracle.",
         technique="Lean 4 proof (induction over candidate lists / state trees; frame lemmas; blocked-run vs first-passing-candidate analysis of the hierarchical dispatch) + differential correspondence (flat and nested engine models) + may-vs-trigger twin oracle on 6 classes")
     streams = (
@@ -805,6 +806,7 @@ class C12(flatcheck.FlatCheck):
         ('nested-model-reentrant', (8, 110), (8, 500)),
         ('nested-twin', (16, 14), (16, 110)),
         ('nested-twin-parallel', (8, 14), (8, 110)),
+        ('nested-twin-globaldest', (4, 12), (8, 60)),
     )
 
     def leanchecker(self):
